@@ -297,4 +297,12 @@ def r4(F, R):
     R.floor(1)
 
 
-RULES = [("R1", r1, None), ("R2", r2, None), ("R3", r3, None), ("R4", r4, None)]
+def r5(F, R):
+    """The active filter is the one the user gave: `--name` / `--tags` supplied through `with_cli()` survive every later builder call
+    and `clone()` (path tables of the Cucumber builder methods and of its Clone impl)."""
+    n = roles.check_builders_keep_cli(F, R)
+    roles.check_clone_faithful_table(F, R, "cucumber::Cucumber", "clone-faithful")
+    R.floor(20)
+
+
+RULES = [("R1", r1, None), ("R2", r2, None), ("R3", r3, None), ("R4", r4, None), ("R5", r5, None)]
